@@ -53,6 +53,8 @@ def gen(r, tier, i):
     for pid in range(n):
         p = {'pid': pid, 'ts': sched.gen_ts(r, grid, gprec), 'amount': r.choice([1, 2, 5]),
              'shared_acc': r.random() < 0.5}
+        if r.random() < 0.25:
+            p['amount2'] = 10 * r.choice([1, 2, 5])      # a second port on the accumulator's node
         if cls == 'weak':
             c = r.random()
             if c < 0.25:
@@ -111,7 +113,7 @@ def run(spec):
     if not ok:
         V.check('no_exception', False, ('run_for/update did not return normally', repr(exc)[:300]))
     pidx = {p['pid']: p for p in spec['procs']}
-    amounts = {p['pid']: p.get('amount', 1) for p in spec['procs']}
+    amounts = {p['pid']: p.get('amount', 1) + (p.get('amount2') or 0) for p in spec['procs']}
     applied = {}         # token -> [apply times]
     apply_seq = []       # tokens in application order
     per_proc = {}        # pid -> [(token, time)]
